@@ -7,6 +7,8 @@ def stages(tier):
          "timeout": 300, "timeout_thorough": 1800, "search_budget": 60},
         {"name": "rangecond", "cmd": "relayx", "args": ["-prop", "C06x"], "check": "client validators on Range requests never reach the origin and never renew an older stored entry (direct)",
          "timeout": 300, "timeout_thorough": 600},
+        {"name": "updatestore", "cmd": "cachesched", "args": ["-prop", "C06"], "check": "a metadata update issued while a full store of the same key is downloading applies to the new entry (forced schedule at the cache API, direct)",
+         "timeout": 120, "timeout_thorough": 300},
     ]
 
 
